@@ -26,20 +26,32 @@ Theorem failed_rule_reports_error : forall oracle items s name x,
 Proof. exact AccountingProofs.failed_rule_reports_error. Qed.
 Print Assumptions failed_rule_reports_error.
 
-(* from the declared rules of the CST to the built rules, under the guard that excludes the
-   MAX_AST_DEPTH arm *)
+(* the AST builder: every declared rule becomes an AST item or leaves at least one error --
+   including the rule that hits MAX_AST_DEPTH (Builder::begin pushes an error there; the
+   generated flag maxdepth_pushes_error must be true for this to check).  Before 2a225f1e the
+   statement was refuted by the `Err(MaxDepthReached) => {}` arm. *)
+Theorem ast_no_rule_lost : forall nodes c,
+  In c nodes -> ci_kind c = KRule ->
+  (ci_res c = BAbort -> 1 <= ci_errs c) ->
+  (ci_res c = BMaxDepth -> maxdepth_pushes_error = true -> 1 <= ci_errs c) ->
+  let a := build_ast nodes in
+  In (KRule, ci_name c) (a_items a) \/ 1 <= a_errors a.
+Proof. exact AccountingProofs.ast_no_rule_lost. Qed.
+Print Assumptions ast_no_rule_lost.
+Check AccountingProofs.depth_limit_is_reported : maxdepth_pushes_error = true.
+
+(* from the declared rules of the CST to the built rules *)
 Theorem source_no_rule_lost : forall oracle nodes s c,
   In c nodes -> ci_kind c = KRule ->
-  ci_res c <> BMaxDepth -> (ci_res c = BAbort -> 1 <= ci_errs c) ->
+  (ci_res c = BAbort -> 1 <= ci_errs c) ->
+  (ci_res c = BMaxDepth -> maxdepth_pushes_error = true -> 1 <= ci_errs c) ->
   valid_outcome (oracle (ci_name c)) = true ->
   let s' := add_source oracle nodes s in
   In (ci_name c) (c_rules s') \/ In (ci_name c) (c_ignored s') \/ c_errs s < c_errs s'.
 Proof. exact AccountingProofs.source_no_rule_lost. Qed.
 Print Assumptions source_no_rule_lost.
 
-(* the full statement (no guard) is false on the current tree: `Err(MaxDepthReached) => {}` *)
-Check AccountingProofs.ast_no_rule_lost_refuted : ~ ast_no_rule_lost_stmt.
-Check AccountingProofs.silent_drop_witness.
+Check AccountingProofs.depth_limit_witness.
 Check AccountingProofs.accounting_nonvacuous.
 
 (* parser totality: the interpreter is a structurally recursive function (it always returns),
